@@ -9,6 +9,7 @@ import (
 	"github.com/hashicorp/nodeenrollment"
 	"github.com/hashicorp/nodeenrollment/types"
 	"github.com/hashicorp/nodeenrollment/zzverif/vf"
+	"github.com/hashicorp/nodeenrollment/zzverif/vfs"
 	"google.golang.org/protobuf/proto"
 )
 
@@ -118,78 +119,13 @@ func VerifC19Inmem() {
 
 func init() { VfHarnesses["VerifC19InmemStep"] = VerifC19InmemStep }
 
-// Inductive form: arbitrary pre-state of two stored entries (types forked, ids arbitrary strings),
-// then ONE arbitrary operation, compared with the reference map.
+// Inductive form: arbitrary pre-state of two stored entries, then ONE arbitrary operation, compared with the reference map.
 func VerifC19InmemStep() {
 	ctx := context.Background()
-	st, _ := New(ctx)
-	var ref []vfRef
-	find := func(kind int, id string) int {
-		for i := range ref {
-			if ref[i].kind == kind && ref[i].id == id {
-				return i
-			}
-		}
-		return -1
+	st, err := New(ctx)
+	vf.Assert("storage-created", err == nil)
+	if err != nil {
+		return
 	}
-	for n := 0; n < 2; n++ {
-		k, id, mk := vf.Int("pre-kind", 0, 3), vf.String("pre-id", 6), vf.String("pre-marker", 4)
-		vf.Assume(len(id) > 0)
-		if st.Store(ctx, vfMsg(k, id, mk)) != nil {
-			return
-		}
-		if i := find(k, id); i >= 0 {
-			ref[i].marker = mk
-		} else {
-			ref = append(ref, vfRef{k, id, mk})
-		}
-	}
-	op, kind, id := vf.Int("op", 0, 3), vf.Int("kind", 0, 3), vf.String("id", 6)
-	vf.Assume(len(id) > 0)
-	switch op {
-	case 0:
-		marker := vf.String("marker", 4)
-		vf.Assert("store-ok", st.Store(ctx, vfMsg(kind, id, marker)) == nil)
-		m := vfMsg(kind, id, "")
-		vf.Assert("load-after-store", vf.And(st.Load(ctx, m) == nil, vfMarker(m) == marker))
-		for _, r := range ref { // every other entry is untouched
-			if !(r.kind == kind && r.id == id) {
-				o := vfMsg(r.kind, r.id, "")
-				vf.Assert("others-untouched", vf.And(st.Load(ctx, o) == nil, vfMarker(o) == r.marker))
-			}
-		}
-	case 1:
-		m := vfMsg(kind, id, "")
-		lerr := st.Load(ctx, m)
-		if i := find(kind, id); i >= 0 {
-			vf.Assert("load-returns-last-stored", vf.And(lerr == nil, vfMarker(m) == ref[i].marker))
-		} else {
-			vf.Assert("load-absent-is-not-found", errors.Is(lerr, nodeenrollment.ErrNotFound))
-		}
-	case 2:
-		vf.Assert("remove-ok", st.Remove(ctx, vfMsg(kind, id, "")) == nil)
-		vf.Assert("gone-after-remove", errors.Is(st.Load(ctx, vfMsg(kind, id, "")), nodeenrollment.ErrNotFound))
-		for _, r := range ref {
-			if !(r.kind == kind && r.id == id) {
-				o := vfMsg(r.kind, r.id, "")
-				vf.Assert("others-untouched", vf.And(st.Load(ctx, o) == nil, vfMarker(o) == r.marker))
-			}
-		}
-	default:
-		if kind == 3 {
-			_, lerr := st.List(ctx, vfMsg(kind, "", ""))
-			vf.Assert("tokens-are-not-listable", lerr != nil)
-			break
-		}
-		got, lerr := st.List(ctx, vfMsg(kind, "", ""))
-		vf.Assert("list-ok", lerr == nil)
-		want := 0
-		for _, r := range ref {
-			if r.kind == kind {
-				want++
-			}
-		}
-		vf.Assert("listed-exactly-the-present-ids", len(got) == want)
-	}
-	vf.Reach("end")
+	vfs.MapStep(ctx, st, false)
 }
